@@ -16,7 +16,7 @@ Check ==
            st == [w |-> e.style.width * K, den |-> e.den * K, cap |-> e.style.cap, join |-> e.style.join,
                   miter |-> e.style.miter, t |-> [m |-> e.ctm.m, mden |-> e.ctm.mden]]
            sps == Subpaths(e.ops)
-           ok == \A k \in 1..Len(sps) : SubpathOK(sps[k])
+           ok == \A k \in 1..Len(sps) : SubpathOK(sps[k]) /\ SubpathKOK(sps[k], K)
            dsp == DashedSubpaths(sps, e.style.dash, e.style.dash_offset, K)
            pcs == PreparedPieces(st, dsp)
            cls == [k \in 1..(e.w * e.h) |-> Classify(pcs, (k - 1) % e.w, (k - 1) \div e.w, 48)]
